@@ -365,7 +365,7 @@ func (st *provState) storedInto(a *ssa.Alloc, loads int) bool {
 // Write is one instruction that modifies memory.
 type Write struct {
 	Instr ssa.Instruction
-	Kind  string    // store | mapupdate | append | delete | clear | copy | sort | send
+	Kind  string    // store | mapupdate | append | delete | clear | copy | sort | send | atomic
 	Base  ssa.Value // the address (store) or container (others) being written
 	Val   ssa.Value // value written, when there is one
 }
@@ -423,6 +423,24 @@ func writesOf(fn *ssa.Function) []Write {
 				q := calleeQualified(c)
 				if inPlaceStdlib[q] && len(c.Args) > 0 {
 					ws = append(ws, Write{Instr: ins, Kind: "sort", Base: c.Args[0]})
+				}
+				if f := c.StaticCallee(); f != nil && f.Signature.Recv() != nil && len(c.Args) > 0 {
+					if pk := fnPkg(f); pk != nil && pk.Path() == "sync/atomic" {
+						name := f.Name()
+						if o := f.Origin(); o != nil {
+							name = o.Name()
+						}
+						switch name {
+						case "Store", "Swap", "CompareAndSwap", "Add", "And", "Or":
+							ws = append(ws, Write{Instr: ins, Kind: "atomic", Base: c.Args[0]})
+						}
+					}
+				}
+				if pk := fnPkg(c.StaticCallee()); pk != nil && pk.Path() == "sync/atomic" && c.StaticCallee().Signature.Recv() == nil && len(c.Args) > 0 {
+					n := c.StaticCallee().Name()
+					if strings.HasPrefix(n, "Store") || strings.HasPrefix(n, "Swap") || strings.HasPrefix(n, "CompareAndSwap") || strings.HasPrefix(n, "Add") {
+						ws = append(ws, Write{Instr: ins, Kind: "atomic", Base: c.Args[0]})
+					}
 				}
 			}
 		}
